@@ -364,7 +364,23 @@ Definition oracle_C01 (x : case) : bool := o_ok1 (o_final x).
 Definition oracle_C13 (x : case) : bool := o_ok13 (o_final x).
 Definition oracle_C15 (x : case) : bool := o_ok15 (o_final x).
 Definition oracle_C05_first (x : case) : bool := o_ok5 (o_final x).
-Definition oracle_C14 (x : case) : bool := c14_run [] 0 (snd (fst x)) (snd x).
+(* ... and per CONNECTION, with no timeout excuse: a connection that was handed a wantlist is not handed another one before
+   its handler reported the outcome of the first (Ready or Failed) — after the 1 s timeout the behaviour gives up on that
+   connection and must use another one *)
+Fixpoint c14_conn_run (outstanding : list (peer * conn)) (ops : list cop) (obs : list cobs) : bool :=
+  match ops, obs with
+  | op :: ops', ob :: obs' =>
+      let out1 := match op with
+                  | CReport p c RpReady | CReport p c (RpFailed _) =>
+                      filter (fun e => negb ((fst e =? p) && (snd e =? c))) outstanding
+                  | _ => outstanding
+                  end in
+      let sends := flat_map (fun o => match o with OSendWantlist p c _ _ => [(p, c)] | _ => [] end) (fst ob) in
+      let clash := existsb (fun pc => existsb (fun e => (fst e =? fst pc) && (snd e =? snd pc)) out1) sends in
+      negb clash && c14_conn_run (out1 ++ sends) ops' obs'
+  | _, _ => true
+  end.
+Definition oracle_C14 (x : case) : bool := c14_run [] 0 (snd (fst x)) (snd x) && c14_conn_run [] (snd (fst x)) (snd x).
 Definition oracle_base (x : case) : bool :=
   oracle_C03 x && oracle_C01 x && oracle_C13 x && oracle_C15 x && oracle_C05_first x && oracle_C14 x.
 
